@@ -6,6 +6,8 @@ Case kinds
   text   : _resolve_expression_indexes(s) on raw (mostly malformed) strings         K: idem (exhaustive over short strings)
   ns     : eval(<name>) with locals= / builtins= : namespace precedence, purity     K: idem (eval_M with tag values)
   sem    : Python's reading of an integer-literal subscript (validates index_sem)   K: idem
+  int    : CPython's int(s) and int(s.strip()) on Latin-1 strings (validates parse_int_raw / parse_pyint, incl. the
+           hard-coded int() whitespace class: every one of the 256 codes as left/right padding)              K: idem
 """
 import fcntl
 import itertools
@@ -20,13 +22,15 @@ ID = 'C16'
 PROPS_FILE = 'Props/C16.v'
 MODEL_FILES = ['Funcs/Funcs.v', 'Funcs/EvalIdx.v', 'Funcs/FuncsF.v']
 K_NAME = ('K_helpers (Funcs.observe over PrimFloat / Z vs fsic.functions.lag/lead/diff/dlog) + K_rewrite (EvalIdx.eval_text / rewrite, '
-          'extracted to OCaml, vs VectorContainer._resolve_expression_indexes: string equality) + K_namespace (EvalIdx.eval_M vs eval())')
+          'extracted to OCaml, vs VectorContainer._resolve_expression_indexes: string equality) + K_namespace (EvalIdx.eval_M vs eval()) '
+          '+ K_int (EvalIdx.parse_int_raw / parse_pyint vs CPython int(s) / int(s.strip()))')
 RULE = ('helpers: every array length 0..6 (thorough 0..8) x every shift -n-2..n+2 x fill values {nan, -1.0, 0.0, inf} x lag/lead/diff/dlog '
         'x data variants (positive, with zero/negative/nan, int64), plus rank-0/rank-2 arguments — exhaustive at that bound; '
         'expressions: random arithmetic over container variables, helper calls, positional indexes/slices and backticked label '
         'indexes/slices (open ends, steps, missing labels, whitespace) over range / str list / int list / NumPy int+str / pandas Index / '
         'PeriodIndex Y+Q spans; raw strings: all strings up to length 4 (thorough 5) over an 8-symbol bracket alphabet + random longer ones; '
-        'namespace: every subset pattern of {locals, variable, helper/builtins=} for the queried name. Non-trivial = helper call on a '
+        'namespace: every subset pattern of {locals, variable, helper/builtins=} for the queried name; int(): each of the 256 Latin-1 '
+        'codes as left / right / inner padding of a digit string + random digit/sign/underscore/space strings. Non-trivial = helper call on a '
         'non-empty array, an expression with a bracket or a helper call, a raw string containing "[", any namespace/sem case; distinct by hash.')
 TRUSTED = ['OCaml extraction of EvalIdx.v (ExtrOcamlBasic + ExtrOcamlString, Z/nat kept inductive) + driver coq/Extract/EvalIdx/driver.ml; '
            'a sample of every extracted run is re-evaluated inside Coq by vm_compute',
@@ -39,7 +43,7 @@ CASE_TIMEOUT = 30
 
 FUNCS = ['lag', 'lead', 'diff', 'dlog']
 HELPER_NAMES = ['diff', 'dlog', 'exp', 'lag', 'lead', 'log']
-LEAK_NAMES = ['np', 'copy', 're', 'warnings', 'difflib']          # globals of fsic/core/containers.py
+LEAK_NAMES = ['np', 'copy', 're', 'warnings', 'difflib', '_builtins', 'VectorContainer', 'abs', 'len', 'print']   # globals of fsic/core/containers.py, Python builtins
 SIG15A = 'C16|eval→_resolve_expression_indexes|positional-slice-stop+1'
 SIG15B = 'C16|eval→_resolve_expression_indexes|positional-bracket-ValueError'
 SIG26 = 'C16|diff(x,0)|returns-x-not-zeros'
@@ -259,6 +263,18 @@ def impl_text(case):
         return {'text': _exc(e)}
 
 
+def _outer_has(name):
+    import builtins as B
+    import fsic.core.containers as M
+    return name in vars(M) or hasattr(B, name)
+
+
+def _outer_get(name):
+    import builtins as B
+    import fsic.core.containers as M
+    return vars(M)[name] if name in vars(M) else getattr(B, name)
+
+
 def impl_ns(case):
     import numpy as np
     import fsic.functions as F
@@ -286,6 +302,8 @@ def impl_ns(case):
         for k, v in F.builtins.items():
             if r is v:
                 return 'T:' + k
+        if _outer_has(case['name']) and _outer_get(case['name']) is r:
+            return 'G:' + case['name']                     # a module global of containers.py / a Python builtin
         return 'O:' + type(r).__name__
     try:
         out = ['val', tag(c.eval(case['name'], **kw))]
@@ -295,6 +313,7 @@ def impl_ns(case):
         out = _exc(e)
     return {'out': out, 'container_same': _snapshot(c) == before, 'table_same': _table_snapshot() == tb and _table_ok(),
             'table_keys': [k for k, _ in tb],
+            'outer': [n for n in sorted({case['name'], 'np', 'abs', 'nope'}) if _outer_has(n)],
             'bi_after': None if bi is None else [[k, tag(v)] for k, v in bi.items()],
             'locals_same': locals_before is None or kw['locals'] == locals_before}
 
@@ -308,8 +327,17 @@ def impl_sem(case):
         return {'sel': None}
 
 
+def impl_int(case):
+    def f(t):
+        try:
+            return int(t)
+        except ValueError:
+            return None
+    return {'raw': f(case['s']), 'stripped': f(case['s'].strip())}
+
+
 def impl(case):
-    return {'helper': impl_helper, 'expr': impl_expr, 'text': impl_text, 'ns': impl_ns, 'sem': impl_sem}[case['kind']](case)
+    return {'helper': impl_helper, 'expr': impl_expr, 'text': impl_text, 'ns': impl_ns, 'sem': impl_sem, 'int': impl_int}[case['kind']](case)
 
 
 # =========================================================================== generators
@@ -507,6 +535,9 @@ def gen_label(rng, span, allow_missing=True):
     labs = span['labels']
     r = rng.random()
     if allow_missing and r < 0.06:
+        if span['type'] != 'period' and r < 0.02 and any(isinstance(x, int) and not isinstance(x, bool) for x in labs):
+            # the text of an int label followed by an ASCII separator: str.strip() would remove it, int() does not -> not a label
+            return str(rng.choice([x for x in labs if isinstance(x, int)])) + rng.choice(['\x1f', '\x1c', '\x1e'])
         return rng.choice(['zz', 1234, '9999', 'A']) if span['type'] != 'period' else rng.choice(['1990', '2050Q1', 'zz'])
     if span['type'] == 'period' and span['freq'] == 'Q' and r < 0.3:
         return rng.choice(labs)[:4]                      # a year: partial-string label of a quarterly index
@@ -626,9 +657,9 @@ def gen_text(rng, tier):
     extra = ['X[`a`]', 'X[ `a` : `1` ]', 'X[`a`:`1`:`11`]', 'X[]`', 'X[ ]]`', 'X[\n`a`\n]', 'X[`a`\n:]', 'X[1:2:3:4]`', 'X[`a`::]', 'X[::`a`]',
              'X[`a`] + [1, 2][0]', 'X[1_1]`', 'X[+1]`', 'X[-0]`', 'X[ 007 ]`', 'X[1 1]`', 'X[--1]`', 'X[1.0]`', 'X[\x0c1\x1f]`', 'X[\xa01\x85]`',
              'X[``a``]', 'X[`a]', 'X[a`]', 'X[`a`b`]', 'X[` a `]', 'X[` 1 `]', 'X[`+1`]', 'X[`1_1`]', 'X[`0011`]', 'X[`a`:]', 'X[:`a`]', 'X[:]`',
-             'X[`zz`]', 'X[`a`:`zz`]', 'X[`1`1`]', 'X[`1`1`:`a`]', 'X[`a`1`]', 'X[``11``]', 'X[`1``1`]', 'X[1:2:3:4]', 'X[`a`:`1`:2:]', 'X[`a`:`1`: 2 : ]`', 'X[Y[0]]`', 'X[[0]]`', '[[`a`]]', 'X[`a`][`1`]', 'X[:-1] + Y[`a`]', 'X[1:3] + Y[`a`]', 'X[a-1] + Y[`a`]']
+             'X[`zz`]', 'X[`a`:`zz`]', 'X[`1\x1f`]', 'X[`\x1f1`]', 'X[+1\x1f`]', 'X[`\xa011\x85`]', 'X[` 1 `:`\t11\x0c`]', 'X[`1\x1c`:`a`]', 'X[`a`:`11\x1d`]', 'X[`1`1`]', 'X[`1`1`:`a`]', 'X[`a`1`]', 'X[``11``]', 'X[`1``1`]', 'X[1:2:3:4]', 'X[`a`:`1`:2:]', 'X[`a`:`1`: 2 : ]`', 'X[Y[0]]`', 'X[[0]]`', '[[`a`]]', 'X[`a`][`1`]', 'X[:-1] + Y[`a`]', 'X[1:3] + Y[`a`]', 'X[a-1] + Y[`a`]']
     cases += [{'kind': 'text', 'span': TEXT_SPAN, 's': s} for s in extra]
-    pool = TEXT_ALPHABET + ['`a`', '`1`', '`11`', '`zz`', '-1', '+1', '1_1', ' : ', '[', ']', '\t', '_', '-', '+', '0', '2', 'X', '\x0c', '\xa0', '\x85', '\x1f', '(', ')', ',']
+    pool = TEXT_ALPHABET + ['`a`', '`1`', '`11`', '`zz`', '`1\x1f`', '`\x1c1`', '`\xa01`', '` 1 `', '`1\x85`', '`\t11`', '\x1f`', '`\x1e', '-1', '+1', '1_1', ' : ', '[', ']', '\t', '_', '-', '+', '0', '2', 'X', '\x0c', '\xa0', '\x85', '\x1f', '(', ')', ',']
     for _ in range(1500 if tier == 'quick' else 20000):
         s = ''.join(rng.choice(pool) for _ in range(rng.randint(3, 14)))
         cases.append({'kind': 'text', 'span': TEXT_SPAN, 's': s})
@@ -687,7 +718,7 @@ def gen_ns(rng, tier):
         vars_ = rng.sample(pool, rng.randint(0, 3))
         locals_ = None if rng.random() < 0.3 else rng.sample(pool + ['zeta'], rng.randint(0, 3))
         bi = None if rng.random() < 0.5 else rng.sample(pool + ['kappa', 'exp'], rng.randint(0, 4))
-        cases.append({'kind': 'ns', 'vars': vars_, 'locals': locals_, 'bi': bi, 'name': rng.choice(pool + ['exp', 'dlog', 'nope'])})
+        cases.append({'kind': 'ns', 'vars': vars_, 'locals': locals_, 'bi': bi, 'name': rng.choice(pool + ['exp', 'dlog', 'nope', 'np', 'abs', 'copy'])})
     for nm in LEAK_NAMES:
         cases.append({'kind': 'ns', 'vars': ['X'], 'locals': None, 'bi': None, 'name': nm})
     return cases
@@ -705,6 +736,22 @@ def gen_sem(rng, tier):
                     if rng.random() < (0.25 if tier == 'quick' else 1.0):
                         parts = [a or '', b or ''] + ([] if s is None else [s])
                         cases.append({'kind': 'sem', 'n': n, 'inner': ':'.join(parts)})
+    return cases
+
+
+def gen_int(rng, tier):
+    out = []
+    for c in range(256):
+        ch = chr(c)
+        out += [ch + '1', '1' + ch, ch + '12' + ch, '1' + ch + '2', '-' + ch + '1', ch + '-1', ch]
+    pool = list('0123456789') + ['+', '-', '_', ' ', '\t', '\n', '\x0b', '\x0c', '\r', '\x1c', '\x1d', '\x1e', '\x1f', '\x85', '\xa0', 'a', '.', '1', '0', '_']
+    for _ in range(600 if tier == 'quick' else 6000):
+        out.append(''.join(rng.choice(pool) for _ in range(rng.randint(0, 7))))
+    seen, cases = set(), []
+    for t in out:
+        if t not in seen:
+            seen.add(t)
+            cases.append({'kind': 'int', 's': t})
     return cases
 
 
@@ -734,6 +781,7 @@ def gen(rng, tier):
     cases += gen_helpers(rng, tier)
     cases += gen_ns(rng, tier)
     cases += gen_sem(rng, tier)
+    cases += gen_int(rng, tier)
     cases += gen_text(rng, tier)
     n_expr = 3000 if tier == 'quick' else 60000
     for i in range(n_expr):
@@ -926,7 +974,7 @@ def oracle_ns(case, obs, fails):
     else:
         want = ['raise', 'AttributeError', name, True]
     if obs['out'] != want:
-        if name in LEAK_NAMES and obs['out'][0] == 'val' and obs['out'][1].startswith('O:'):
+        if name in LEAK_NAMES and obs['out'] == ['val', 'G:' + name]:
             bad(SIG_LEAK, 'eval(%r): a name that is neither a local, a variable nor a helper evaluates to a global of fsic/core/containers.py (%s) instead of raising AttributeError' % (name, obs['out'][1]))
         else:
             bad('C16|eval|namespace-precedence', 'eval(%r) with vars=%s locals=%s builtins=%s gave %s, expected %s' % (name, case['vars'], case['locals'], case['bi'], obs['out'], want))
@@ -958,8 +1006,6 @@ def guard(case, obs):
     if k == 'expr':
         has_tick, nonlit, stop = _risky(case)
         return bool(has_tick and (nonlit or stop)) or _d0(case)
-    if k == 'ns':
-        return case['name'] in LEAK_NAMES
     return False
 
 
@@ -1031,7 +1077,7 @@ EXTRACT_V = '''From Coq Require Import ZArith List String Ascii.
 From Coq Require Import ExtrOcamlBasic ExtrOcamlString.
 Require Import Fsic.Base.PyBase Fsic.Funcs.EvalIdx.
 Extraction Language OCaml.
-Extraction "evalidx.ml" eval_text_span rewrite_span index_sem ns_case.
+Extraction "evalidx.ml" eval_text_span rewrite_span index_sem ns_case parse_int_raw parse_pyint.
 '''
 
 DRIVER_ML = r'''open Evalidx
@@ -1039,6 +1085,9 @@ let rec pos_of_int n = if n = 1 then XH else if n land 1 = 0 then XO (pos_of_int
 let z_of_int n = if n = 0 then Z0 else if n > 0 then Zpos (pos_of_int n) else Zneg (pos_of_int (-n))
 let rec nat_of_int n = if n <= 0 then O else S (nat_of_int (n-1))
 let rec int_of_nat = function O -> 0 | S n -> 1 + int_of_nat n
+let rec int_of_pos = function XH -> 1 | XO p -> 2 * int_of_pos p | XI p -> 2 * int_of_pos p + 1
+let int_of_z = function Z0 -> 0 | Zpos p -> int_of_pos p | Zneg p -> - (int_of_pos p)
+let show_oz = function None -> "N" | Some z -> string_of_int (int_of_z z)
 let explode s = List.init (String.length s) (String.get s)
 let implode l = String.of_seq (List.to_seq l)
 let unhex s = let n = String.length s / 2 in String.init n (fun i -> Char.chr (int_of_string ("0x" ^ String.sub s (2*i) 2)))
@@ -1084,12 +1133,13 @@ let () =
       (match f with
        | ["T"; sp; e] -> print_endline (out_string (eval_text_span (span_of sp) (explode (unhex e))))
        | ["W"; sp; e] -> print_endline (out_string (rewrite_span (span_of sp) (explode (unhex e))))
+       | ["I"; e] -> print_endline (show_oz (parse_int_raw (explode (unhex e))) ^ " " ^ show_oz (parse_pyint (explode (unhex e))))
        | ["M"; n; e] ->
            (match index_sem (nat_of_int (int_of_string n)) (explode (unhex e)) with
             | None -> print_endline "N"
             | Some l -> print_endline ("P " ^ String.concat "," (List.map (fun p -> string_of_int (int_of_nat p)) l)))
-       | ["N"; tbl; vars; locals; bi; name] ->
-           let ((dh, vs), r) = ns_case (names tbl) (names vars) (optnames locals) (optnames bi) (explode (unhex name)) in
+       | ["N"; tbl; outer; vars; locals; bi; name] ->
+           let ((dh, vs), r) = ns_case (names tbl) (names outer) (names vars) (optnames locals) (optnames bi) (explode (unhex name)) in
            let rs = (match r with
                      | EVal v -> "V " ^ hex (implode v)
                      | EAttributeError n -> "A " ^ hex (implode n)
@@ -1202,9 +1252,11 @@ def correspond(cases, obs, tag, tier):
             lines.append('W\t%s\t%s' % (_span_line(c, o), _hex(c['s'])))
         elif k == 'sem':
             lines.append('M\t%d\t%s' % (c['n'], _hex(c['inner'])))
+        elif k == 'int':
+            lines.append('I\t%s' % _hex(c['s']))
         elif k == 'ns':
-            lines.append('N\t%s\t%s\t%s\t%s\t%s' % (_names_line(o['table_keys']), _names_line(c['vars']), _opt_names_line(c['locals']),
-                                                    _opt_names_line(c['bi']), _hex(c['name'])))
+            lines.append('N\t%s\t%s\t%s\t%s\t%s\t%s' % (_names_line(o['table_keys']), _names_line(o['outer']), _names_line(c['vars']),
+                                                        _opt_names_line(c['locals']), _opt_names_line(c['bi']), _hex(c['name'])))
         else:
             continue
         idx.append(i)
@@ -1228,6 +1280,8 @@ def correspond(cases, obs, tag, tier):
             elif k == 'sem':
                 want = 'N' if o['sel'] is None else 'P ' + ','.join(str(x) for x in o['sel'])
                 ok = ol == want
+            elif k == 'int':
+                ok = ol == '%s %s' % ('N' if o['raw'] is None else o['raw'], 'N' if o['stripped'] is None else o['stripped'])
             else:
                 f = ol.split('\t')
                 out = o['out']
